@@ -1557,7 +1557,7 @@ Proof.
   assert (option_map (@ncols Q) (ql (run rnd init hist_manual_auto)) = Some 0) as E by (vm_compute; reflexivity).
   rewrite Hq in E. simpl in E. injection E as E.
   assert (ncols (rl (run rnd init hist_manual_auto)) = 1) as E' by (vm_compute; reflexivity).
-  rewrite E, E' in Hrel. discriminate.
+  rewrite E, E' in Hrel. discriminate Hrel.
 Qed.
 
 (* (4) changeElementReal / changeElementRational with 0 < |value| <= epsilon: the rational LP does not hold the number *)
@@ -1615,7 +1615,7 @@ Proof.
   assert (option_map (@ncols Q) (ql (run rnd_impl init hist_underflow)) = Some 4) as E by (vm_compute; reflexivity).
   rewrite Hq in E. simpl in E. injection E as E.
   assert (ncols (rl (run rnd_impl init hist_underflow)) = 1) as E' by (vm_compute; reflexivity).
-  rewrite E, E' in Hrel. discriminate.
+  rewrite E, E' in Hrel. discriminate Hrel.
 Qed.
 
 (* (7) addRowRational(const mpq_t pointer ...) with an explicit zero beyond the current columns *)
@@ -1629,7 +1629,7 @@ Proof.
   assert (option_map (@ncols Q) (ql (run rnd_impl init hist_gmp_zero)) = Some 5) as E by (vm_compute; reflexivity).
   rewrite Hq in E. simpl in E. injection E as E.
   assert (ncols (rl (run rnd_impl init hist_gmp_zero)) = 1) as E' by (vm_compute; reflexivity).
-  rewrite E, E' in Hrel. discriminate.
+  rewrite E, E' in Hrel. discriminate Hrel.
 Qed.
 
 (* (8) addColRational(const mpq_t pointer ...) after clearLPReal under OBJSENSE_MINIMIZE: the objective changes sign *)
@@ -1642,7 +1642,7 @@ Proof.
   intros (q & Hq & Hrel & _).
   assert (option_map (@mobj Q) (ql (run rnd_impl init hist_gmp_sense)) = Some [5%Q]) as E by (vm_compute; reflexivity).
   rewrite Hq in E. simpl in E. injection E as E.
-  assert (mobj (rl (run rnd_impl init hist_gmp_sense)) = [((-5)%Z, 0%Z)]) as E' by (vm_compute; reflexivity).
+  assert (mobj (rl (run rnd_impl init hist_gmp_sense)) = [((-5629499534213120)%Z, (-50)%Z)]) as E' by (vm_compute; reflexivity).
   destruct Hrel as [_ _ Hm _ _ _ _ _]. rewrite E, E' in Hm.
   inversion Hm as [|? ? ? ? H1 _]; subst.
   revert H1. apply (not_adj_between _ _ (dI 0)); [reflexivity|]. split; vm_compute; [reflexivity|discriminate].
